@@ -153,6 +153,9 @@ func (ph PHash64) Encode(dst []byte) {
 }
 
 func (ph *PHash64) Decode(src []byte) {
+	if len(src) < 8 {
+		return
+	}
 	*ph = PHash64(decodeFn(src[:8]))
 }
 
@@ -181,6 +184,9 @@ func (ph PHash256) Encode(buf []byte) {
 }
 
 func (ph *PHash256) Decode(buf []byte) {
+	if len(buf) < 32 {
+		return
+	}
 	ph[0] = decodeFn(buf[:8])
 	ph[1] = decodeFn(buf[8*1:])
 	ph[2] = decodeFn(buf[8*2:])
